@@ -1,6 +1,7 @@
 //! Resting place for [OgreArc<>]
 
 use super::types::BoundedOgreAllocator;
+#[cfg(not(feature = "verif"))]
 use std::{
     sync::atomic::{
             self,
@@ -12,6 +13,10 @@ use std::{
     marker::PhantomData,
     ptr::NonNull,
 };
+#[cfg(feature = "verif")]
+use std::{sync::atomic::Ordering::{Acquire, Relaxed, Release}, ops::{Deref, DerefMut}, fmt::{Debug, Display, Formatter}, marker::PhantomData, ptr::NonNull};
+#[cfg(feature = "verif")]
+use crate::verif::{self as atomic, AtomicU32};
 use std::borrow::Borrow;
 
 /// Wrapper type for data providing an atomic reference counter for dropping control, similar to `Arc`,
